@@ -5,6 +5,7 @@ from harness import core, mlang
 from harness.core import Z, S, L, O, T, B, Qc
 
 MODEL_MODS = ["Model.Dur", "Model.Orn"]
+ALL_MODS = MODEL_MODS + ["Model.OrnAll"]
 RULE = ("15 tags x durations (every value of the duration table, dotted/tuplet products, arbitrary rationals incl. very short ones) x "
         "previous context (none / note / rest) x next context (none / scale note / chromatic note / rest); pairs of tags on one note; "
         "tagged melodies and scores rendered end to end; non-trivial = the tag changes the note")
@@ -20,7 +21,7 @@ TAG_C = dict(zip(TAGS, ["TAccent", "TMordant", "TInvMordant", "TChromaMordant", 
 
 def durations():
     from harness.props.C10 import SPEC_TABLE
-    base = sorted(set(v for v in SPEC_TABLE.values() if v > 0))
+    base = sorted(set(SPEC_TABLE.values()))          # the table's "n" (zero length) included
     extra = [F(1, 12), F(1, 13), F(1, 24), F(5, 4), F(11, 8), F(7, 3), F(13, 6), F(5, 12), F(1, 2), F(1), F(3, 2), F(17, 12), F(29, 20), F(9, 2), F(10)]
     return base + extra
 
@@ -214,5 +215,86 @@ class Pairs(Stream):
                     yield dict(case, mel=case["mel"][:i] + case["mel"][i + 1:])
 
 
+class Combos(Stream):
+    """1..4 tags on one note (realize_tags runs the builders in its fixed order, each on what the previous ones produced),
+    durations from 0 (the table's .n) upwards, every kind of neighbour: against OrnAll.realize_all"""
+    name = "realize_tag_sets"
+    mods = ALL_MODS
+    checker = "check_realize_all"
+    pair = "Note.realize_tags / ornementation.realize_tags (sets of tags; Melody.set_duration, .n, .duration on the intermediate melodies) <-> OrnAll.realize_all"
+    quick, thorough = 1500, 25000
+
+    def gen(self, rng, n):
+        ds = [F(0), F(0)] + durations() + [F(13, 5), F(5, 7), F(7, 5), F(11, 7), F(1, 7), F(2, 9)]
+        k = 0
+        # every pair once on a zero-length note (a previous note present: the suspensions fire whatever the length)
+        for i, a in enumerate(TAGS):
+            for b in TAGS[i + 1:]:
+                if k < n // 3:
+                    yield {"tags": [a, b], "cur": {"kind": "s", "val": 2, "oct": 0, "dur": F(0)}, "last": ctx_note(rng, "s"), "next": ctx_note(rng, rng.choice(["s", "none"]))}
+                    k += 1
+        while k < n:
+            tags = sorted(rng.sample(TAGS, rng.choice([1, 2, 2, 3, 3, 4])), key=TAGS.index)
+            cur = {"kind": rng.choice("sssh"), "val": rng.randrange(7), "oct": rng.choice([0, 0, 1]), "dur": rng.choice(ds)}
+            yield {"tags": tags, "cur": cur, "last": ctx_note(rng, rng.choice(["none", "s", "s", "rest"])),
+                   "next": ctx_note(rng, rng.choice(["none", "s", "h", "rest"]))}
+            k += 1
+
+    def impl(self, case):
+        from harness.score_gen import mk_rnote
+        def one():
+            nt = mk_rnote(dict(case["cur"], amp=66)).add_tags(case["tags"])
+            last = mk_rnote(dict(case["last"], amp=66)) if case["last"] else None
+            nxt = mk_rnote(dict(case["next"], amp=66)) if case["next"] else None
+            return pieces(nt.realize_tags(last_note=last, next_note=nxt))
+        def f():
+            try:
+                return {"pieces": one()}
+            except AssertionError as e:
+                # the final assertion of realize_tags: only because durations are rounded to denominators <= LIMIT_DENOM?
+                from musiclang.write import note as NM
+                old = NM.LIMIT_DENOM
+                NM.LIMIT_DENOM = 10 ** 12
+                try:
+                    p2 = one()
+                    exact = sum(x[1] for x in p2) == F(case["cur"]["dur"]) and all(x[1] >= 0 for x in p2)
+                except Exception:
+                    exact = False
+                finally:
+                    NM.LIMIT_DENOM = old
+                return {"exc": "AssertionError", "msg": str(e)[:200], "only_resolution": exact}
+        return mlang.guarded(f)
+
+    def term(self, case, r):
+        exp = "None" if mlang.is_exc(r) else "(Some " + L([Qc(p[1]) for p in r["pieces"]]) + ")"
+        return T(coq_ctx(case["cur"], case["last"], case["next"]), L([TAG_C[t] for t in case["tags"]]), Qc(F(case["cur"]["dur"])), exp)
+
+    def spec(self, case, r):
+        key, d = "+".join(case["tags"]), F(case["cur"]["dur"])
+        if mlang.is_exc(r):
+            if r.get("only_resolution"):
+                return {"sig": "realize-exceeds-duration-resolution", "msg": f"{key} on duration {d}: {r['msg']}"}
+            return {"sig": f"realize-raises:{key}", "msg": f"duration {d}: {r}"}
+        if sum(p[1] for p in r["pieces"]) != d:
+            return {"sig": f"realize-changes-span:{key}", "msg": str(r)}
+        if any(p[1] < 0 for p in r["pieces"]):
+            return {"sig": f"realize-negative-duration:{key}", "msg": str(r)}
+        return None
+
+    def nontrivial(self, case, r):
+        return not mlang.is_exc(r) and len(r["pieces"]) > 1
+
+    def hist_keys(self, case, r):
+        return [f"tags={len(case['tags'])}", "zero-length" if F(case["cur"]["dur"]) == 0 else "positive-length", "exc" if mlang.is_exc(r) else "ok"]
+
+    def shrink(self, case):
+        if len(case["tags"]) > 1:
+            for i in range(len(case["tags"])):
+                yield dict(case, tags=case["tags"][:i] + case["tags"][i + 1:])
+        for key in ("last", "next"):
+            if case[key] is not None:
+                yield dict(case, **{key: None})
+
+
 def streams():
-    return [Realize(), Pairs()]
+    return [Realize(), Pairs(), Combos()]
